@@ -1226,7 +1226,9 @@ def gen_route_circuit(mods, rng, k, measure):
     if measure:
         m = rng.sample(lq, rng.randint(1, k))
         if rng.random() < 0.5:
-            c.append(cirq.measure(*m, key='out'))
+            # a joint measurement of three or more qubits under a custom key is routed only from the last moment (the router refuses it
+            # elsewhere with ValueError, as documented), so it gets a final moment of its own
+            c.append(cirq.measure(*m, key='out'), strategy=cirq.InsertStrategy.NEW if len(m) >= 3 else cirq.InsertStrategy.EARLIEST)
         else:
             c.append([cirq.measure(q, key=f'm{i}') for i, q in enumerate(m)])
     return c, lq
